@@ -5,7 +5,7 @@ import z3
 
 from . import ty as T
 from .ty import INT, BOOL, CHAR, NONE, SLICE, TStr, TList, TTuple, TOpt, TRec, TRef, TSet, TDict, TEnum, Ty
-from .engine import V, K, PyObj, STuple, Unsupported, none_v, mk_int, mk_bool, fresh, seq_arr, seq_len, mk_seq, str_const, is_str
+from .engine import SDict, V, K, PyObj, STuple, Unsupported, none_v, mk_int, mk_bool, fresh, seq_arr, seq_len, mk_seq, str_const, is_str
 
 # refutation mode: expand quantifiers over 0..BOUND and bound every fresh sequence length
 MODE = {"bounded": None}
@@ -53,6 +53,14 @@ def coerce(v, ty: Ty, st=None):
         if isinstance(ty, TList):
             return list_literal([coerce(x, ty.elem) for x in v.items], ty)
         raise Unsupported(f"tuple where {ty} expected")
+    if isinstance(v, SDict):
+        if isinstance(ty, TOpt):
+            return V(ty, ty.sort().some(coerce(v, ty.inner).z))
+        if isinstance(ty, TRec) and ty.is_dict:
+            if set(v.items) != set(ty.fields):
+                raise Unsupported(f"dict keys {sorted(v.items)} where {sorted(ty.fields)} expected")
+            return rec_make(ty, v.items)
+        raise Unsupported(f"dict where {ty} expected")
     if isinstance(v, PyObj):
         raise Unsupported(f"python object {v.o!r} where {ty} expected")
     if v.ty == ty:
@@ -115,7 +123,18 @@ def default_val(ty: Ty):
     return z3.Const("dflt_" + T._mangle(ty.key), s)
 
 
+def sdict_of(v):
+    """View a dict-like record as a structural dict."""
+    if isinstance(v, SDict):
+        return v
+    if isinstance(v, V) and isinstance(v.ty, TRec) and v.ty.is_dict:
+        return SDict({f: rec_get(v, f) for f in v.ty.fields})
+    return None
+
+
 def truthy(v):
+    if isinstance(v, SDict):
+        return z3.BoolVal(len(v.items) > 0)
     if isinstance(v, K):
         return z3.BoolVal(bool(v.v))
     if isinstance(v, STuple):
@@ -153,6 +172,8 @@ REC_TRUTHY: dict = {}
 
 
 def is_none(v):
+    if isinstance(v, SDict):
+        return z3.BoolVal(False)
     if isinstance(v, K):
         return z3.BoolVal(v.v is None)
     if isinstance(v, (STuple, PyObj)):
